@@ -81,6 +81,11 @@ func runC19(c *Check) {
 				continue
 			}
 		}
+		// a local closure that is only ever called by its parent (`release := func(...) {...}; release(...)`)
+		// is part of the parent's body: its lock effects are applied at the call sites there
+		if fn.Parent() != nil && closureOnlyCalledByParent(fn) {
+			continue
+		}
 		nFn++
 		c.Touch(fn)
 		sum := le.Summary(fn)
@@ -789,4 +794,38 @@ func runC19(c *Check) {
 	c.Decide(!found, "R8", "lock-order-graph#acyclic", token.NoPos, "lock-order cycle detection", cyc,
 		fmt.Sprintf("%d must-acquire lock-order edges, no cycle", len(edges)), "the lock-order graph has a cycle: two goroutines taking the locks in opposite order deadlock and Stop never returns")
 	c.Min("R8", "lock-order edges", len(edges), 3)
+}
+
+// closureOnlyCalledByParent: every use of the closure value of fn in its parent is a direct call.
+func closureOnlyCalledByParent(fn *ssa.Function) bool {
+	parent := fn.Parent()
+	if parent == nil {
+		return false
+	}
+	found := false
+	for _, b := range parent.Blocks {
+		for _, in := range b.Instrs {
+			mc, ok := in.(*ssa.MakeClosure)
+			if !ok || mc.Fn != ssa.Value(fn) {
+				continue
+			}
+			found = true
+			for _, r := range *mc.Referrers() {
+				switch x := r.(type) {
+				case *ssa.Call:
+					if x.Call.Value != ssa.Value(mc) {
+						return false
+					}
+				case *ssa.Defer:
+					if x.Call.Value != ssa.Value(mc) {
+						return false
+					}
+				case *ssa.DebugRef:
+				default:
+					return false
+				}
+			}
+		}
+	}
+	return found
 }
